@@ -1060,24 +1060,34 @@ def container_geometry(prog, res):
                     continue
                 env = {"@prog": prog, lgk_key: lgk, arr_key: arr}
                 feasible = False
+                unknown = False
                 for pth in paths:
                     dead = False
+                    open_ = False
                     for c, tv in pth:
                         try:
                             v = formula.evaluate(c, env)
                         except (formula.Uneval, TypeError, IndexError, ZeroDivisionError):
-                            continue
+                            v = ("?",)
                         if isinstance(v, tuple):
+                            # a condition that looks at the size but cannot be evaluated (a validation helper with early returns):
+                            # the path may well be closed by it -- not evidence of anything
+                            if arr_key in show(c):
+                                open_ = True
                             continue
                         if (tv[0] == "eq" and v != tv[1]) or (tv[0] == "ne" and v in tv[1]):
                             dead = True
                             break
-                    if not dead:
+                    if not dead and not open_:
                         feasible = True
                         break
+                    if not dead and open_:
+                        unknown = True
                 if feasible:
                     verdict, wit = False, "lg_k %d, lg_arr %d (the sketch itself never goes beyond %d)" % (lgk, arr, bound)
                     break
+                if unknown and verdict:
+                    verdict = None
             if verdict is False:
                 break
         res.tri(verdict, "C14.G", "C14.G|%s" % which, "HllSketch::deserialize hands the %s reader a table size no sketch reaches: %s -- the value is Ok and then %s" % (
